@@ -66,4 +66,9 @@ MUTANTS = [
       (S, "                    self.clients.add(sock2)\n", "                    pass\n")),
     M("c17-rewrapped-socket-left-in-table", "C17", "(*) the socket object returned by the authenticator is never removed from server.clients",
       (S, "            self.clients.discard(sock)\n            self.clients.discard(sock2)\n", "            self.clients.discard(sock)\n")),
+    M("c17-revert-accepted-socket-forgotten", "C17", "(*) thread pool: when set-up fails after authentication only the socket object the authenticator returned is discarded (revert)",
+      (S, "            self.clients.discard(accepted)\n", "")),
+    M("c17-halfbuilt-connection-kept", "C17", "(*) thread pool: a client whose set-up fails after its connection was built stays registered for polling",
+      (S, "            self.logger.exception(err_msg)\n            if conn is not None:\n                conn.close()\n",
+          "            self.logger.exception(err_msg)\n            if conn is not None:\n                self.fd_to_conn[id(conn)] = conn\n")),
 ]
